@@ -81,7 +81,7 @@ def name_specs():
 
 
 def specs(tier: str):
-    return families.c01_specs(tier, kmode="zero", extra_trivia=("both_overlap", "cm_nonatomic", "cm_stack")) + start_pos_specs(tier) + name_specs() + families.skip_specs("zero", tier) + families.explicit_trivia_specs("zero", tier) + families.metachar_specs("zero", tier)
+    return families.c01_specs(tier, kmode="zero", extra_trivia=("both_overlap", "cm_nonatomic", "cm_stack")) + start_pos_specs(tier) + name_specs() + families.skip_specs("zero", tier) + families.explicit_trivia_specs("zero", tier) + families.metachar_specs("zero", tier) + families.builtin_specs("zero", tier) + families.ctx3_specs("zero", tier, (families.S("a"), families.R("n"), families.R("ANY"), families.R("EOI"), ("push", families.S("a")), ("pop",)), ("none",) if tier == "quick" else ("none", "ws"))
 
 
 def start_pos_specs(tier: str):
@@ -96,7 +96,7 @@ def run(tier: str) -> int:
         C01(), specs(tier), tier, "exploration",
         bounds=[{"top": [{"n": n, "modifiers": list(m), "trivia": list(t)} for n, m, t in b["top"]], "contexts": [{"hole_size": h, "trivia": list(t)} for h, t in b["ctx"]],
                  "max_inputs_per_rule": b["max_inputs"], "start_positions": "0, plus every k<=len on a slice with L<=3", "name_grammars": [g[0] for g in NAME_GRAMMARS]}],
-        rule=families.c01_rule_text() + families.SKIP_RULE_TEXT + families.EXPLICIT_RULE_TEXT + families.META_RULE_TEXT + "; (c) grammars whose rule names collide with generated identifiers. Oracle (relational, no model): generate() compiles and is byte-identical when called twice; "
+        rule=families.c01_rule_text() + families.SKIP_RULE_TEXT + families.EXPLICIT_RULE_TEXT + families.META_RULE_TEXT + families.BUILTIN_RULE_TEXT + "; (c) grammars whose rule names collide with generated identifiers. Oracle (relational, no model): generate() compiles and is byte-identical when called twice; "
              "for every (rule, input, start position) the generated module returns exactly the interpreter's tree incl. tags, or both raise PestParsingError with equal furthest_pos (IU vs GU, IO vs GO). "
              "Non-trivial: the interpreter returned at least one pair",
         validate_model=False, still_violates=replay_case_bool,
